@@ -25,11 +25,12 @@ Fixpoint cm_find (line : Z) (es : list (Z * cinfo)) (acc : option cinfo) : optio
 Definition cm_lookup (es : list (Z * cinfo)) (line : Z) : option cinfo :=
   if (line <=? 0)%Z then None else cm_find line es None.
 
-(* the loop of getSpecialLineComment: `if strComment == "" { = } else { + "\n" + }` - an empty accumulated text is
-   overwritten, so leading empty lines vanish *)
-Definition join_step (acc : list N) (l : cline) : list N :=
-  match acc with [] => cl_str l | _ => acc ++ 10 :: cl_str l end.
-Definition join_lines (ls : list cline) : list N := fold_left join_step ls [].
+(* the loop of getSpecialLineComment (after fix 699f51d): `if index == 0 { = } else { + "\n" + }` -
+   a plain join with "\n". (Before the fix the test was `strComment == ""`: an empty accumulated text was overwritten,
+   so leading empty lines of a block vanished.) *)
+Definition join_step (acc : list N) (l : cline) : list N := acc ++ 10 :: cl_str l.
+Definition join_lines (ls : list cline) : list N :=
+  match ls with [] => [] | a :: t => fold_left join_step t (cl_str a) end.
 
 Definition special_line_comment (es : list (Z * cinfo)) (line : Z) (head : bool) : list N :=
   match cm_lookup es line with
@@ -74,6 +75,19 @@ Section Consumed.
       end
     | Fault k => Fault k
     | OutOfFuel => OutOfFuel
+    end.
+
+  (* "the parser reads the file to its end": no stray block-end token stops it at top level and it does not give up
+     with the 31st error - then the map holds the comments of every gap of the file *)
+  Definition parser_reads_all (bs : list N) : bool :=
+    match lex_all gbk_runes bs with
+    | Ok ts =>
+      let ts' := parser_view ts in
+      match consumed_tokens ts' with
+      | Ok (Some c) => Nat.eqb (length c) (length ts')
+      | _ => false
+      end
+    | _ => false
     end.
 
   (* the comment the server attaches to a declaration whose name ends on `line` (1-based) *)
